@@ -331,17 +331,562 @@ def rule_ndjson_sentinel(out):
         out.undecided(rid, "_read_json_line/lookups", pos(rel, fn), "no look-up of the step name found")
 
 
+
+# ----------------------------------------------------------------------------------
+# PB1: capacity before unchecked byte writes (CodedOutputStream.write_byte_no_check)
+# ----------------------------------------------------------------------------------
+
+CAP_EXCEPTIONS = {
+    "CodedOutputStream.write_unsigned_varint": "varint loop: at most 10 bytes for values < 2^64 (every integer serializer range-checks before calling); "
+                                               "the rule still requires the `< 10` capacity test in front of the loop",
+}
+
+
+def _recv_name(call):
+    """receiver text of a method call X.m(...), e.g. 'stream', 'self', 'self._stream'"""
+    if isinstance(call.func, ast.Attribute):
+        try:
+            return ast.unparse(call.func.value)
+        except Exception:
+            return None
+    return None
+
+
+def _is_capacity_idiom(stmt):
+    """`if (len(self._buffer) - self._offset) < N: self.flush()` -> N"""
+    if not isinstance(stmt, ast.If) or stmt.orelse:
+        return None
+    t = stmt.test
+    if not (isinstance(t, ast.Compare) and len(t.ops) == 1 and isinstance(t.ops[0], ast.Lt)):
+        return None
+    left = ast.unparse(t.left).replace(" ", "").strip("()")
+    if left != "len(self._buffer)-self._offset":
+        return None
+    body = stmt.body
+    if len(body) == 1 and isinstance(body[0], ast.Expr) and isinstance(body[0].value, ast.Call) and ast.unparse(body[0].value) == "self.flush()":
+        r = t.comparators[0]
+        if isinstance(r, ast.Constant) and isinstance(r.value, int):
+            return r.value
+        return 1 if isinstance(r, (ast.Name, ast.Attribute)) else None  # `< size`: at least what is about to be packed
+    return None
+
+
+class CapWalker:
+    def __init__(self, out, rid, rel, qual, streams):
+        self.out, self.rid, self.rel, self.qual, self.streams = out, rid, rel, qual, streams
+        self.sites = 0
+        self.reported = set()
+
+    def calls_in_order(self, node):
+        res = []
+        for n in ast.walk(node):
+            if isinstance(n, ast.Call):
+                res.append(n)
+        res.sort(key=lambda c: (c.lineno, c.col_offset))
+        return res
+
+    def expr(self, node, cap):
+        for call in self.calls_in_order(node):
+            recv = _recv_name(call)
+            args = [ast.unparse(a) for a in call.args]
+            if recv in self.streams and isinstance(call.func, ast.Attribute):
+                m = call.func.attr
+                if m == "ensure_capacity" and call.args and isinstance(call.args[0], ast.Constant):
+                    cap[recv] = call.args[0].value
+                    continue
+                if m == "write_byte_no_check":
+                    key = "%s/%s.write_byte_no_check" % (self.qual, recv)
+                    site = (call.lineno, call.col_offset)
+                    if cap.get(recv, 0) >= 1:
+                        cap[recv] -= 1
+                        if site not in self.reported:
+                            self.out.ok(self.rid, key, pos(self.rel, call), "capacity for this byte established on every path")
+                    else:
+                        if site not in self.reported:
+                            self.out.bad(self.rid, key, pos(self.rel, call),
+                                         "unchecked byte write with no ensure_capacity/flush test since the last buffer-consuming call on some path: "
+                                         "when the 64 KiB buffer is exactly full here the bytearray index is out of range (IndexError) — the stream is lost")
+                    self.reported.add(site)
+                    self.sites += 1
+                    continue
+                if m in ("flush",):
+                    continue
+                cap[recv] = 0
+            else:
+                # the stream passed to something else: the callee may fill the buffer
+                for st in self.streams:
+                    if st in args:
+                        cap[st] = 0
+
+    def block(self, stmts, cap):
+        """returns cap after the block, or None if the block always leaves"""
+        for st in stmts:
+            n = _is_capacity_idiom(st)
+            if n is not None and "self" in self.streams:
+                cap["self"] = n
+                continue
+            if isinstance(st, (ast.Return, ast.Raise)):
+                if getattr(st, "value", None) is not None:
+                    self.expr(st.value, cap)
+                if isinstance(st, ast.Raise) and st.exc is not None:
+                    pass
+                return None
+            if isinstance(st, ast.If):
+                self.expr(st.test, cap)
+                a = self.block(st.body, dict(cap))
+                b = self.block(st.orelse, dict(cap)) if st.orelse else dict(cap)
+                if a is None and b is None:
+                    return None
+                merged = {}
+                for k in set((a or {}).keys()) | set((b or {}).keys()) | set(cap.keys()):
+                    vals = [x.get(k, 0) for x in (a, b) if x is not None]
+                    merged[k] = min(vals)
+                cap = merged
+                continue
+            if isinstance(st, (ast.For, ast.While)):
+                if isinstance(st, ast.For):
+                    self.expr(st.iter, cap)
+                else:
+                    self.expr(st.test, cap)
+                entry = dict(cap)
+                for _ in range(4):
+                    after = self.block(st.body, dict(entry))
+                    if after is None:
+                        break
+                    new_entry = {k: min(entry.get(k, 0), after.get(k, 0)) for k in set(entry) | set(after)}
+                    if new_entry == entry:
+                        break
+                    entry = new_entry
+                cap = entry
+                continue
+            if isinstance(st, (ast.With, ast.Try)):
+                body = st.body
+                r = self.block(body, cap)
+                cap = r if r is not None else cap
+                continue
+            self.expr(st, cap)
+        return cap
+
+
+def rule_py_capacity(out):
+    rid = "PB1"
+    out.rule(rid, "every write_byte_no_check in _binary.py is preceded on every path, since the last call that can fill the buffer, by ensure_capacity(n) "
+                  "or the `len(buffer) - offset < n → flush()` test", 8)
+    tree, rel = parse_py(out, "_binary.py")
+    for cname, cls in classes(tree).items():
+        for mname, fn in methods(cls).items():
+            src = ast.unparse(fn)
+            if "write_byte_no_check" not in src or mname == "write_byte_no_check":
+                continue
+            qual = "%s.%s" % (cname, mname)
+            streams = {"stream", "self._stream"}
+            if cname == "CodedOutputStream":
+                streams = {"self"}
+            if qual in CAP_EXCEPTIONS:
+                # still require the capacity idiom with N >= 10 before the loop
+                n = None
+                for st in fn.body:
+                    v = _is_capacity_idiom(st)
+                    if v is not None:
+                        n = v
+                out.check(n is not None and n >= 10, rid, qual + "/capacity test before the varint loop", pos(rel, fn),
+                          "exception: " + CAP_EXCEPTIONS[qual] + " (test present: < %s)" % n,
+                          "the `< 10` capacity test in front of the varint loop is missing or smaller than the 10 bytes a 64-bit varint can need")
+                continue
+            w = CapWalker(out, rid, rel, qual, streams)
+            w.block(fn.body, {s: 0 for s in streams})
+
+
+# ----------------------------------------------------------------------------------
+# PH1: headers. Writer: magic, fixed int32 version, schema string, in that order.
+# Readers: magic / version / schema are compared with `!=` and a mismatch raises, before
+# anything else is read.
+# ----------------------------------------------------------------------------------
+
+def _raises(body):
+    return any(isinstance(s, ast.Raise) for s in body)
+
+
+def rule_py_headers(out):
+    rid = "PH1"
+    out.rule(rid, "Python binary and NDJSON readers compare magic/first line, format version and schema with `!=` and raise on mismatch, in that order, "
+                  "before any value is read; the binary writer writes magic, int32 version, schema in that order", 8)
+    tree, rel = parse_py(out, "_binary.py")
+    cl = classes(tree)
+    # writer order
+    w = methods(cl["BinaryProtocolWriter"]).get("__init__") if "BinaryProtocolWriter" in cl else None
+    if w is None:
+        out.undecided(rid, "BinaryProtocolWriter.__init__", rel, "not found")
+    else:
+        seq = []
+        for st in w.body:
+            t = ast.unparse(st)
+            if "MAGIC_BYTES" in t and "write_bytes" in t:
+                seq.append("magic")
+            elif "write_fixed_int32" in t and "CURRENT_BINARY_FORMAT_VERSION" in t:
+                seq.append("version")
+            elif "string_serializer.write" in t and "schema" in t:
+                seq.append("schema")
+        out.check(seq == ["magic", "version", "schema"], rid, "BinaryProtocolWriter.__init__/header order", pos(rel, w),
+                  "writes magic, fixed int32 version, schema string", "header is not written as magic, int32 version, schema: %s" % seq)
+    r = methods(cl["BinaryProtocolReader"]).get("__init__") if "BinaryProtocolReader" in cl else None
+    if r is None:
+        out.undecided(rid, "BinaryProtocolReader.__init__", rel, "not found")
+    else:
+        checks = []
+        for st in r.body:
+            if isinstance(st, ast.If) and _raises(st.body):
+                t = st.test
+                txt = ast.unparse(t)
+                which = "magic" if "MAGIC_BYTES" in txt else "version" if "CURRENT_BINARY_FORMAT_VERSION" in txt else "schema" if "schema" in txt else "?"
+                cmp = t
+                if isinstance(t, ast.BoolOp):  # expected_schema and self._schema != expected_schema
+                    cmp = t.values[-1]
+                neq = isinstance(cmp, ast.Compare) and len(cmp.ops) == 1 and isinstance(cmp.ops[0], ast.NotEq)
+                checks.append((which, neq, st))
+        order = [c[0] for c in checks]
+        out.check(order == ["magic", "version", "schema"], rid, "BinaryProtocolReader.__init__/checks in order", pos(rel, r),
+                  "magic, version, schema are each checked with a raising branch, in stream order", "header checks found: %s (expected magic, version, schema)" % order)
+        for which, neq, st in checks:
+            out.check(neq, rid, "BinaryProtocolReader.__init__/%s compared with !=" % which, pos(rel, st), "mismatch raises",
+                      "the %s test is not an inequality test: some foreign values are accepted" % which)
+    tree2, rel2 = parse_py(out, "_ndjson.py")
+    cl2 = classes(tree2)
+    r2 = methods(cl2["NDJsonProtocolReader"]).get("__init__") if "NDJsonProtocolReader" in cl2 else None
+    if r2 is None:
+        out.undecided(rid, "NDJsonProtocolReader.__init__", rel2, "not found")
+    else:
+        found = {}
+        for st in ast.walk(r2):
+            if isinstance(st, ast.If) and _raises(st.body):
+                txt = ast.unparse(st.test)
+                if "CURRENT_NDJSON_FORMAT_VERSION" in txt:
+                    found["version"] = st
+                elif "schema" in txt:
+                    found["schema"] = st
+                elif "'yardl'" in txt or '"yardl"' in txt:
+                    found["yardl key"] = st
+        for which in ("yardl key", "version", "schema"):
+            st = found.get(which)
+            if st is None:
+                out.bad(rid, "NDJsonProtocolReader.__init__/%s check" % which, pos(rel2, r2), "no raising check of the %s of the header line" % which)
+                continue
+            t = st.test
+            ok = True
+            if which != "yardl key":
+                cmps = [n for n in ast.walk(t) if isinstance(n, ast.Compare)]
+                ok = any(len(c.ops) == 1 and isinstance(c.ops[0], ast.NotEq) for c in cmps)
+            out.check(ok, rid, "NDJsonProtocolReader.__init__/%s check" % which, pos(rel2, st), "mismatch raises",
+                      "the %s test is not an inequality test" % which)
+
+
+# ----------------------------------------------------------------------------------
+# PE1: end of input. Every buffer read of CodedInputStream is preceded by the
+# `_last_read_count - _offset < n → _fill_buffer(n)` idiom; _fill_buffer raises when it
+# cannot provide min_count bytes; every function that calls readinto can raise EOFError.
+# ----------------------------------------------------------------------------------
+
+def rule_py_eof(out):
+    rid = "PE1"
+    out.rule(rid, "CodedInputStream: buffer reads are preceded by the refill test with at least the bytes consumed, _fill_buffer raises EOFError when it cannot "
+                  "provide min_count bytes, and every method that calls readinto on the underlying stream compares the count and can raise EOFError", 7)
+    tree, rel = parse_py(out, "_binary.py")
+    cls = classes(tree).get("CodedInputStream")
+    if cls is None:
+        out.undecided(rid, "CodedInputStream", rel, "class not found")
+        return
+    ms = methods(cls)
+    for mname, fn in ms.items():
+        src = ast.unparse(fn)
+        if "readinto" in src:
+            has_raise = any(isinstance(n, ast.Raise) and n.exc is not None and "EOFError" in ast.unparse(n.exc) for n in ast.walk(fn))
+            cmp_count = False
+            for n in ast.walk(fn):
+                if isinstance(n, ast.Compare) and "readinto" in ast.unparse(n):
+                    cmp_count = True
+                if isinstance(n, ast.Assign) and "readinto" in ast.unparse(n.value) and mname == "_fill_buffer":
+                    cmp_count = True
+            out.check(has_raise and cmp_count, rid, "CodedInputStream.%s/short read raises" % mname, pos(rel, fn),
+                      "the byte count returned by readinto is examined and a short read raises EOFError",
+                      "this method reads from the underlying stream but cannot raise EOFError on a short read: a truncated payload is returned zero-padded")
+    # refill idiom before direct buffer reads
+    for mname in ("read", "read_byte", "read_unsigned_varint"):
+        fn = ms.get(mname)
+        if fn is None:
+            out.undecided(rid, "CodedInputStream." + mname, rel, "method not found")
+            continue
+        ok = False
+        for n in ast.walk(fn):
+            if isinstance(n, ast.If):
+                t = ast.unparse(n.test).replace(" ", "")
+                if t.startswith("self._last_read_count-self._offset<") and any("_fill_buffer" in ast.unparse(b) for b in n.body):
+                    need = t.split("<", 1)[1]
+                    fill_arg = None
+                    for b in ast.walk(n):
+                        if isinstance(b, ast.Call) and isinstance(b.func, ast.Attribute) and b.func.attr == "_fill_buffer" and b.args:
+                            fill_arg = ast.unparse(b.args[0]).replace(" ", "")
+                    ok = fill_arg == need
+        out.check(ok, rid, "CodedInputStream.%s/refill before read" % mname, pos(rel, fn), "`_last_read_count - _offset < n → _fill_buffer(n)` precedes the buffer access",
+                  "no refill test with matching byte count before the buffer is indexed: stale bytes beyond the data are decoded at end of input")
+    fb = ms.get("_fill_buffer")
+    if fb is not None:
+        ok = False
+        for n in ast.walk(fb):
+            if isinstance(n, ast.If) and any(isinstance(b, ast.Raise) for b in n.body):
+                t = ast.unparse(n.test).replace(" ", "")
+                if "min_count" in t and "_last_read_count" in t and "<" in t:
+                    ok = True
+        out.check(ok, rid, "CodedInputStream._fill_buffer/raises below min_count", pos(rel, fb), "raises EOFError when fewer than min_count bytes are available",
+                  "_fill_buffer does not raise when it obtained fewer than min_count bytes")
+
+
+# ----------------------------------------------------------------------------------
+# PS1: a stream block count of 0 is the terminator: block writers never emit it.
+# PA1: values handed out by readers do not alias the reusable input buffer.
+# ----------------------------------------------------------------------------------
+
+def rule_py_stream_blocks(out):
+    rid = "PS1"
+    out.rule(rid, "StreamSerializer.write writes a block length only under a `len(value) > 0` test (0 is the end-of-stream marker); "
+                  "BinaryProtocolWriter._end_stream writes exactly the 0 terminator", 2)
+    tree, rel = parse_py(out, "_binary.py")
+    cl = classes(tree)
+    fn = methods(cl["StreamSerializer"]).get("write") if "StreamSerializer" in cl else None
+    if fn is None:
+        out.undecided(rid, "StreamSerializer.write", rel, "not found")
+    else:
+        parents = {}
+        for n in ast.walk(fn):
+            for ch in ast.iter_child_nodes(n):
+                parents[ch] = n
+        n_calls = 0
+        for n in ast.walk(fn):
+            if isinstance(n, ast.Call) and isinstance(n.func, ast.Attribute) and n.func.attr == "write_unsigned_varint" and n.args and ast.unparse(n.args[0]).startswith("len("):
+                n_calls += 1
+                subject = ast.unparse(n.args[0])
+                guarded = False
+                p = parents.get(n)
+                child = n
+                while p is not None:
+                    if isinstance(p, ast.If) and child in p.body:
+                        t = ast.unparse(p.test).replace(" ", "")
+                        if (subject.replace(" ", "") + ">0") in t or (subject.replace(" ", "") + "!=0") in t:
+                            guarded = True
+                    child, p = p, parents.get(p)
+                out.check(guarded, rid, "StreamSerializer.write/block length " + subject, pos(rel, n), "block length is written only when it is > 0",
+                          "a block length can be written for an empty batch: the 0 is the end-of-stream marker, so later items of the stream are lost")
+        if n_calls == 0:
+            out.undecided(rid, "StreamSerializer.write/block length", pos(rel, fn), "no block-length write found")
+    es = methods(cl["BinaryProtocolWriter"]).get("_end_stream") if "BinaryProtocolWriter" in cl else None
+    if es is None:
+        out.undecided(rid, "BinaryProtocolWriter._end_stream", rel, "not found")
+    else:
+        t = ast.unparse(es)
+        out.check("write_byte_no_check(0)" in t and "ensure_capacity(1)" in t, rid, "BinaryProtocolWriter._end_stream", pos(rel, es),
+                  "writes the single 0 byte terminator with capacity ensured", "_end_stream does not write the 0 terminator")
+
+
+def rule_py_no_alias(out):
+    rid = "PA1"
+    out.rule(rid, "a memoryview obtained from CodedInputStream.read_view (a window into the reusable 64 KiB buffer) never reaches np.frombuffer or a return "
+                  "value without being copied (bytes/bytearray/str/tobytes/copy)", 2)
+    tree, rel = parse_py(out, "_binary.py")
+    count = 0
+    for cname, cls in classes(tree).items():
+        if cname == "CodedInputStream":
+            continue
+        for mname, fn in methods(cls).items():
+            views = set()
+            for n in ast.walk(fn):
+                if isinstance(n, ast.Assign) and isinstance(n.value, ast.Call) and isinstance(n.value.func, ast.Attribute) and n.value.func.attr == "read_view":
+                    for t in n.targets:
+                        if isinstance(t, ast.Name):
+                            views.add(t.id)
+            for n in ast.walk(fn):
+                if isinstance(n, ast.Call) and isinstance(n.func, ast.Attribute) and n.func.attr == "read_view":
+                    count += 1
+            if not views and "read_view" not in ast.unparse(fn):
+                continue
+            for n in ast.walk(fn):
+                bad = None
+                if isinstance(n, ast.Call) and ast.unparse(n.func) in ("np.frombuffer", "numpy.frombuffer"):
+                    a0 = n.args[0] if n.args else None
+                    if a0 is not None and ((isinstance(a0, ast.Name) and a0.id in views) or "read_view" in ast.unparse(a0)):
+                        bad = n
+                if isinstance(n, ast.Return) and n.value is not None:
+                    v = n.value
+                    if (isinstance(v, ast.Name) and v.id in views) or (isinstance(v, ast.Call) and isinstance(v.func, ast.Attribute) and v.func.attr == "read_view"):
+                        bad = n
+                if bad is not None:
+                    out.bad(rid, "%s.%s/view escapes" % (cname, mname), pos(rel, bad),
+                            "a view into the reader's reusable buffer is wrapped by np.frombuffer / returned without a copy: the next refill silently overwrites the values already handed out")
+            key = "%s.%s/read_view use" % (cname, mname)
+            if not any(o["key"].startswith(rid + "/%s.%s/view escapes" % (cname, mname)) for o in out.obs):
+                out.ok(rid, key, pos(rel, fn), "view is compared or decoded into a new object before leaving the method")
+    out.stats["PA1_read_view_calls"] = count
+
+# ----------------------------------------------------------------------------------
+# PW1: primitive wire table of the Python runtime vs refs/wire.json (docs/reference/binary.md)
+# ----------------------------------------------------------------------------------
+
+STRUCT_CLASS = {"<?": "byte", "<b": "byte", "<B": "byte", "<f": "f32", "<d": "f64", "<ff": "f32f32", "<dd": "f64f64"}
+
+
+def wire_class_of(cls, all_classes, depth=0):
+    """derive how a *_serializer class writes a value"""
+    ms = methods(cls)
+    init = ms.get("__init__")
+    if init is not None:
+        for n in ast.walk(init):
+            if isinstance(n, ast.Call) and isinstance(n.func, ast.Attribute) and n.func.attr == "__init__" and len(n.args) == 2 and isinstance(n.args[1], ast.Constant):
+                fmt = n.args[1].value
+                if fmt in STRUCT_CLASS:
+                    return STRUCT_CLASS[fmt]
+    w = ms.get("write")
+    if w is not None:
+        calls = [n.func.attr for n in ast.walk(w) if isinstance(n, ast.Call) and isinstance(n.func, ast.Attribute) and isinstance(n.func.value, ast.Name) and n.func.value.id == "stream"]
+        if "write_signed_varint" in calls:
+            return "svarint"
+        if "write_unsigned_varint" in calls and "write_bytes" in calls:
+            return "string"
+        if "write_unsigned_varint" in calls and "write_bytes_directly" in calls:
+            return "string"
+        if "write_unsigned_varint" in calls:
+            return "uvarint"
+        # delegates to its own write_numpy
+        if any(isinstance(n, ast.Call) and isinstance(n.func, ast.Attribute) and n.func.attr == "write_numpy" and isinstance(n.func.value, ast.Name) and n.func.value.id == "self" for n in ast.walk(w)):
+            wn = ms.get("write_numpy")
+            if wn is not None:
+                c2 = [n.func.attr for n in ast.walk(wn) if isinstance(n, ast.Call) and isinstance(n.func, ast.Attribute) and isinstance(n.func.value, ast.Name) and n.func.value.id == "stream"]
+                if c2 and all(x == "write_signed_varint" for x in c2):
+                    return "svarint"
+                if c2 and all(x == "write_unsigned_varint" for x in c2):
+                    return "uvarint"
+        # delegates to another serializer (date/time/datetime -> int64 signed varint)
+        for n in ast.walk(w):
+            if isinstance(n, ast.Call) and isinstance(n.func, ast.Attribute) and n.func.attr == "write" and isinstance(n.func.value, ast.Name) and n.func.value.id.endswith("_serializer"):
+                return "via:" + n.func.value.id
+    for b in cls.bases:
+        base = b.value.id if isinstance(b, ast.Subscript) and isinstance(b.value, ast.Name) else b.id if isinstance(b, ast.Name) else None
+        if base in all_classes and depth < 3 and base not in ("TypeSerializer", "StructSerializer"):
+            return wire_class_of(all_classes[base], all_classes, depth + 1)
+    return None
+
+
+def rule_py_wire_table(out):
+    rid = "PW1"
+    out.rule(rid, "_binary.py: each of the 18 `<primitive>_serializer` objects writes its value with the wire class the binary format reference prescribes "
+                  "(raw byte, zig-zag varint, unsigned varint, little-endian IEEE floats, length-prefixed UTF-8)", 18)
+    ref = load_ref("wire.json")["primitives"]
+    tree, rel = parse_py(out, "_binary.py")
+    cl = classes(tree)
+    assigns = module_assigns(tree)
+    table = {}
+    for prim, want in sorted(ref.items()):
+        name = prim + "_serializer"
+        v = assigns.get(name)
+        if v is None or not (isinstance(v, ast.Call) and isinstance(v.func, ast.Name) and v.func.id in cl):
+            out.bad(rid, "primitive/" + prim, rel, "no module-level `%s = <Serializer>()`" % name)
+            continue
+        got = wire_class_of(cl[v.func.id], cl)
+        hops = 0
+        while got and got.startswith("via:") and hops < 3:
+            tgt = assigns.get(got[4:])
+            got = wire_class_of(cl[tgt.func.id], cl) if tgt is not None and isinstance(tgt, ast.Call) and isinstance(tgt.func, ast.Name) and tgt.func.id in cl else None
+            hops += 1
+        table[prim] = got
+        if got is None:
+            out.undecided(rid, "primitive/" + prim, pos(rel, cl[v.func.id]), "cannot determine how %s writes its value" % v.func.id)
+        else:
+            out.check(got == want, rid, "primitive/" + prim, pos(rel, cl[v.func.id]), "%s → %s" % (v.func.id, got),
+                      "%s writes a %s but the binary format prescribes %s for %s: C++ and Python streams are no longer interchangeable" % (v.func.id, got, want, prim))
+    out.tables["python_wire_table"] = table
+
+
+# ----------------------------------------------------------------------------------
+# L1 (Python half): link check of emitted runtime symbols against the shipped runtimes.
+# ----------------------------------------------------------------------------------
+
+def module_names(tree):
+    names = set()
+    for n in tree.body:
+        if isinstance(n, (ast.ClassDef, ast.FunctionDef, ast.AsyncFunctionDef)):
+            names.add(n.name)
+        elif isinstance(n, ast.Assign):
+            for t in n.targets:
+                if isinstance(t, ast.Name):
+                    names.add(t.id)
+        elif isinstance(n, ast.AnnAssign) and isinstance(n.target, ast.Name):
+            names.add(n.target.id)
+        elif isinstance(n, (ast.Import, ast.ImportFrom)):
+            for a in n.names:
+                names.add((a.asname or a.name).split(".")[0])
+    return names
+
+
+LINK_EXCEPTIONS = {
+    "python_ndjson/none_converter": "python/ndjson.typeConverter returns it only for a nil type, and every caller handles nil itself (union cases print `None`, "
+                                    "optionals wrap the non-null case); no model reaches this template — the name is nevertheless missing from _ndjson.py",
+}
+
+
+def rule_link(out):
+    rid = "L2"
+    out.rule(rid, "every runtime symbol the generators can emit (collected from the Go templates, computed names expanded over the 18 primitives) is defined in the "
+                  "shipped runtime: _binary.py/_ndjson.py module-level names, MATLAB +binary/<Name>.m files, C++ declarations in detail/binary/*.h", 130)
+    syms = out.go.get("emitted_runtime_symbols")
+    if not syms:
+        out.undecided(rid, "emitted symbols", "-", "the Go analyser did not provide the table of emitted runtime symbols")
+        return
+    tb, relb = parse_py(out, "_binary.py")
+    tn, reln = parse_py(out, "_ndjson.py")
+    defined = {"python_binary": module_names(tb), "python_ndjson": module_names(tn)}
+    # names re-exported by `from .yardl_types import *`
+    ty, _ = parse_py(out, "yardl_types.py")
+    defined["python_binary"] |= module_names(ty)
+    defined["python_ndjson"] |= module_names(ty)
+    mdir = os.path.join(out.repo, "tooling/internal/matlab/static_files/+binary")
+    defined["matlab_binary"] = {f[:-2] for f in os.listdir(mdir) if f.endswith(".m")} if os.path.isdir(mdir) else set()
+    import cxx_ast
+    roots, rc, err = cxx_ast.dump(out.repo, "reader_writer.h")
+    cxx = set()
+    for r in roots:
+        for n in cxx_ast.walk(r):
+            if n.get("kind") in ("FunctionDecl", "FunctionTemplateDecl", "CXXRecordDecl", "ClassTemplateDecl", "VarDecl", "TypeAliasDecl", "TypeAliasTemplateDecl") and n.get("name"):
+                cxx.add(n["name"])
+    defined["cpp_binary"] = cxx
+    where = {"python_binary": relb, "python_ndjson": reln, "matlab_binary": "tooling/internal/matlab/static_files/+binary", "cpp_binary": "tooling/internal/cpp/include/detail/binary"}
+    for kind in sorted(syms):
+        for entry in syms[kind]:
+            name, _, at = entry.partition("@")
+            exc = LINK_EXCEPTIONS.get("%s/%s" % (kind, name))
+            if exc:
+                out.ok(rid, "%s/%s" % (kind, name), at, "table exception: " + exc)
+                continue
+            ok = name in defined.get(kind, set())
+            out.check(ok, rid, "%s/%s" % (kind, name), at, "defined in " + where[kind],
+                      "the generator emits `%s` (%s) but the shipped runtime (%s) defines no such name: the generated code fails to import/compile/run for models that reach this template" % (name, kind, where[kind]))
+
+
 # ----------------------------------------------------------------------------------
 # dispatch
 # ----------------------------------------------------------------------------------
 
 RULES = {
     "C02": [rule_json_kinds, rule_ndjson_sentinel],
+    "C03": [rule_link, rule_py_wire_table, rule_py_capacity, rule_py_no_alias],
+    "C08": [rule_link],
+    "C15": [rule_py_headers],
+    "C16": [rule_py_eof],
+    "C17": [rule_py_stream_blocks],
+    "C04": [rule_py_headers],
+    "C01": [rule_py_wire_table, rule_py_stream_blocks],
 }
 
 
-def run(prop, tier, repo):
+def run(prop, tier, repo, go_tables=None):
     out = Out(repo)
+    out.go = go_tables or {}
     for r in RULES.get(prop, []):
         r(out)
     try:
@@ -355,7 +900,7 @@ def run(prop, tier, repo):
 
 if __name__ == "__main__":
     import sys
-    res = run(sys.argv[1], "quick", sys.argv[2] if len(sys.argv) > 2 else "/repo")
+    res = run(sys.argv[1], "quick", sys.argv[2] if len(sys.argv) > 2 and not sys.argv[2].startswith("-") else "/repo")
     for o in res["obligations"]:
         if o["status"] != "ok" or "-v" in sys.argv:
             print(o["status"], o["key"], o["pos"], o["fact"][:200])
